@@ -20,7 +20,8 @@ def prepare():
     subprocess.run(["rsync", "-a", "--delete", "--exclude", ".git", "--exclude", "work", "--exclude", "replays", "--exclude", "evidence",
                     "--exclude", "seeded", "--exclude", "harness/bin", SRC_V + "/", V + "/"], check=True)
     gm = os.path.join(V, "harness", "go.mod")
-    open(gm, "w").write(open(gm).read().replace("=> /repo", "=> " + REPO))
+    txt = open(gm).read().replace("=> /repo", "=> " + REPO)
+    open(gm, "w").write(txt)
 
 # (id, property, file, old, new, note)
 M = [
